@@ -215,6 +215,9 @@ func (x *Exec) frameObligations(fr *Frame, ct *Contract, fin *State, reach *Term
 		if mods[g] {
 			continue
 		}
+		if x.sp.Observers[g] || x.sp.Observers[strings.SplitN(g, ".", 2)[0]] {
+			continue
+		}
 		init := x.hp.ghostGet(fr.entry, g)
 		cur := fin.ghost[g]
 		if cur.S == init.S {
@@ -246,6 +249,14 @@ func (x *Exec) frameObligations(fr *Frame, ct *Contract, fin *State, reach *Term
 		}
 		if strings.HasPrefix(d, "family(") {
 			wholeFam[strings.TrimSuffix(strings.TrimPrefix(d, "family("), ")")] = true
+			continue
+		}
+		if strings.HasPrefix(d, "mapof(") {
+			ref, mt := x.mapofRef(d, fr.params, fr.entry)
+			dom, val, ln := x.mapFams(mt)
+			for _, f := range append(append(append([]Family{}, dom...), val...), ln) {
+				excluded[f.Name] = append(excluded[f.Name], ref)
+			}
 			continue
 		}
 		fams, big := x.designatorFamilies(d, names, typs)
